@@ -35,7 +35,9 @@ def factorize_arrow_arr(
     if isinstance(arr, pa.ChunkedArray):
         arr = arr.combine_chunks()
 
-    codes = arr.indices.to_numpy(zero_copy_only=False)
+    # null keys have a null index: without the sentinel to_numpy gives floats with NaN
+    # (the indices of a dictionary array may be unsigned: cast before filling)
+    codes = arr.indices.cast(pa.int64()).fill_null(-1).to_numpy(zero_copy_only=False)
     labels = pd.Index(arr.dictionary.to_pandas(types_mapper=pd.ArrowDtype), name=name)
 
     return codes, labels
